@@ -10,18 +10,19 @@
 EXTENDS Naturals, Integers, Sequences, FiniteSets, TLC, Json
 CONSTANTS Paths, Strats, HdrModes, NSet, MSet, BoolSet, PlaceSet, FootSet, HFSet, PaperSet, NrowSet, ShapeSet, SizeSet, KindSet, ContigSet,
           PriorSet,                \* "none" | "narrow": the body object (one-value width shorthand) served a narrower table before
+          VocabSet,                \* "basic" | "full": the cells cycle through EVERY legal keyword of the enumerated cell options
           KeyTypeSet, SeqSet,      \* type of the grouping-column values (str/int/date/null) and spelling of page_by etc. (list/tuple/str)
           HeaderOffOk, HalfPointOk
 VARIABLES cfg, d, phase, skel, outcome
 vars == <<cfg, d, phase, skel, outcome>>
 Cfg0 == [path |-> "single", strat |-> "plain", hdr |-> "default", n |-> 1, m |-> 1, title |-> FALSE, subline |-> FALSE, foot |-> "none",
          src |-> "none", pghdr |-> FALSE, pgftr |-> FALSE, ptitle |-> "all", pfoot |-> "last", psrc |-> "last", paper |-> "letter",
-         nrow |-> 40, shape |-> "scalar", size |-> "int", kind |-> "str", contig |-> TRUE, colour |-> FALSE, nsec |-> 1, keytype |-> "str", seq |-> "list", prior |-> "none"]
+         nrow |-> 40, shape |-> "scalar", size |-> "int", kind |-> "str", contig |-> TRUE, colour |-> FALSE, nsec |-> 1, keytype |-> "str", seq |-> "list", prior |-> "none", vocab |-> "basic"]
 Dims == << <<"path", Paths>>, <<"strat", Strats>>, <<"hdr", HdrModes>>, <<"n", NSet>>, <<"m", MSet>>, <<"title", BoolSet>>,
            <<"subline", BoolSet>>, <<"foot", FootSet>>, <<"src", FootSet>>, <<"pghdr", HFSet>>,
            <<"pgftr", HFSet>>, <<"ptitle", PlaceSet>>, <<"pfoot", PlaceSet>>, <<"psrc", PlaceSet>>, <<"paper", PaperSet>>, <<"nrow", NrowSet>>,
            <<"shape", ShapeSet>>, <<"size", SizeSet>>, <<"kind", KindSet>>, <<"contig", ContigSet>>, <<"colour", BoolSet>>, <<"nsec", {2, 3}>>,
-           <<"keytype", KeyTypeSet>>, <<"seq", SeqSet>>, <<"prior", PriorSet>> >>
+           <<"keytype", KeyTypeSet>>, <<"seq", SeqSet>>, <<"prior", PriorSet>>, <<"vocab", VocabSet>> >>
 \* dependent restrictions (configurations the constructors accept)
 Dom(k, c) == LET f == Dims[k][1]  S == Dims[k][2] IN
   CASE f = "strat" -> IF c.path = "figure" THEN {"plain"} ELSE S
@@ -33,6 +34,7 @@ Dom(k, c) == LET f == Dims[k][1]  S == Dims[k][2] IN
     [] f = "keytype" -> IF c.strat = "plain" \/ c.path = "figure" THEN {"str"} ELSE S
     [] f = "seq" -> IF c.strat = "plain" \/ c.path = "figure" THEN {"list"} ELSE S
     [] f = "prior" -> IF c.path = "single" /\ c.strat = "plain" /\ c.shape = "scalar" /\ c.m >= 2 THEN S ELSE {"none"}
+    [] f = "vocab" -> IF c.path = "figure" THEN {"basic"} ELSE S
     [] OTHER -> S
 Init == cfg = Cfg0 /\ d = 1 /\ phase = "pick" /\ skel = <<>> /\ outcome = "none"
 Pick == /\ phase = "pick" /\ d <= Len(Dims)
